@@ -293,6 +293,9 @@ def discharge(I, ob, z3_timeout_s, cvc5_timeout_s, both=False):
                 ob.status = "refuted"
                 ob.model = None
                 ob.reason = "cvc5 sat; no z3 model"
+        elif smt.fast_unsat(allterms, int(z3_timeout_s * 10000)):
+            # the relaxed nlsat route again with the long budget (a loaded machine can push a 5 s query past the short one)
+            ob.status, ob.backend = "discharged", "z3-nlsat-retry"
         else:
             s.set("timeout", int(z3_timeout_s * 10000))
             r2 = s.check()
